@@ -1984,7 +1984,11 @@ func (li *lexInterp) tokenParts(r ast.Expr, depth int) (tokenPartsT, bool) {
 		tp = inner
 		if inner.kind == "" {
 			// Type: <param>
-			for _, el := range ast.Unparen(ret.Results[0]).(*ast.CompositeLit).Elts {
+			lit, _ := ast.Unparen(ret.Results[0]).(*ast.CompositeLit)
+			if lit == nil {
+				lit = &ast.CompositeLit{}
+			}
+			for _, el := range lit.Elts {
 				if kv, ok := el.(*ast.KeyValueExpr); ok && identOf(kv.Key).Name == "Type" {
 					if a, ok := bind(kv.Value); ok {
 						if k, ok := li.info.Uses[identOf(a)].(*types.Const); ok {
